@@ -1,6 +1,11 @@
 package props
 
-import "occheck/internal/engine"
+import (
+	"fmt"
+	"strings"
+
+	"occheck/internal/engine"
+)
 
 const (
 	stPropCreate   = "store/v2/proposal.Store.Create"
@@ -140,6 +145,81 @@ func runC02(c *engine.Ctx, tier string) {
 		{"C02.9e", "config/v2.ProposalAbortPhase.State", "config/v2.ProposalAbortPhase_ABORTED", "Applied"},
 	} {
 		terminalCursor(c, s.id, s.field, s.rhs, s.cursor)
+	}
+	// "never sent a change that has not yet been merged": the committed cursor that lets the apply step go
+	// is written after the values it stands for
+	storeWriteOrder(c, "C02.11", "")
+	c.Al = proposalAliases(c.P)
+	partitionKey(c, "C02.12")
+}
+
+// partitionKey: the proposals of one target are reconciled by one worker, one after the other. The
+// library delivers a re-queue to the worker of the partition, so with any other key a proposal can be
+// inside reconcileApply on two workers at once and a delayed worker re-sends change N after N+1 went out.
+func partitionKey(c *engine.Ctx, id string) {
+	o := c.Custom(id, "K-facts(partition key)", "NewController registers a Partitioner; Partitioner.Partition returns PartitionKey(X[:strings.LastIndex(X, \"-\")]) for X the proposal id; store/v2/proposal.NewID builds the id as Sprintf(\"%s-%d\", targetID, index): the key is the target id",
+		"the cursor guards (C02.1-C02.9) are read-then-act; they serialise a target's proposals only because one worker handles all of them")
+	defer o.Done(3)
+	ps, err := c.A.PathsOpt(pkgProposalCtl, engine.PathOpts{Roots: []string{"Partitioner.Partition", "proposal.NewController"}, NoInline: true})
+	if err != nil {
+		o.Undecided(pkgProposalCtl, err.Error())
+		return
+	}
+	registered, keyed := false, false
+	for _, p := range ps {
+		last := &p.Events[len(p.Events)-1]
+		switch {
+		case strings.HasSuffix(p.Root.Name(), "NewController"):
+			o.Site("proposal.NewController")
+			for i := range p.Events {
+				if e := &p.Events[i]; e.Kind == engine.EvCall && strings.HasSuffix(e.CalleeName, "controller.Controller.Partition") && len(e.Args) == 1 && strings.Contains(e.Args[0], "controller/v2/proposal.Partitioner") {
+					registered = true
+				}
+			}
+		case strings.HasSuffix(p.Root.Name(), "Partitioner.Partition"):
+			o.Site("Partitioner.Partition")
+			o.Eval(1)
+			if last.Kind != engine.EvReturn || len(last.Results) != 2 {
+				continue
+			}
+			got := last.Results[0]
+			ok := false
+			for _, x := range []string{"string($ID.Value.(config/v2.ProposalID))", "$ID.Value.(config/v2.ProposalID)"} {
+				for _, wrap := range []string{"controller.PartitionKey(%s)", "controller.PartitionKey(string(%s))"} {
+					if got == fmt.Sprintf(wrap, x+"[:strings.LastIndex("+x+",\"-\")]") {
+						ok = true
+					}
+				}
+			}
+			if !ok {
+				o.Fail(&engine.Violation{Key: "Partitioner.Partition|key", Pos: c.P.Pos(last.Pos), Func: p.Root.Name(),
+					Msg: "the partition key is " + c.Render(got) + ", not the proposal id cut at its last \"-\" (the target id)"})
+			} else {
+				keyed = true
+			}
+		}
+	}
+	if !registered {
+		o.Fail(&engine.Violation{Key: "proposal.NewController|partitioner", Pos: pkgProposalCtl, Func: "NewController", Msg: "the proposal controller does not register the Partitioner: proposals of one target are spread over the workers"})
+	}
+	_ = keyed
+	sp, err := c.A.PathsOpt(pkgStorePropV2, engine.PathOpts{Roots: []string{"proposal.NewID"}, NoInline: true})
+	if err != nil || len(sp) == 0 {
+		o.Undecided(pkgStorePropV2, fmt.Sprintf("no paths for NewID: %v", err))
+		return
+	}
+	for _, p := range sp {
+		last := &p.Events[len(p.Events)-1]
+		o.Site("proposal.NewID")
+		o.Eval(1)
+		got := ""
+		if last.Kind == engine.EvReturn && len(last.Results) == 1 {
+			got = last.Results[0]
+		}
+		if got != "config/v2.ProposalID(fmt.Sprintf(\"%s-%d\",$targetID,$index))" && got != "config/v2.ProposalID(fmt.Sprintf(\"%v-%d\",$targetID,$index))" {
+			o.Fail(&engine.Violation{Key: "proposal.NewID|format", Pos: c.P.Pos(last.Pos), Func: p.Root.Name(),
+				Msg: "the proposal id is built as " + c.Render(got) + ": the part before its last \"-\" is no longer the target id the partitioner keys on"})
+		}
 	}
 }
 
